@@ -597,6 +597,7 @@ def finding_still_fails(ctx, entry) -> bool:
         open(os.path.join(d, "safe.py"), "w").write("import json\nprint(json.dumps(1))\n")
         os.makedirs(os.path.join(d, "evil"))
         open(os.path.join(d, "evil", "json.py"), "w").write("import os\nos.system('true')\n")
+        open(os.path.join(d, "evil", "safe.py"), "w").write("import os\nos.system('true')\n")
         return analyze(w["command"], Config(), Path(d)).action == "allow"
     finally:
         shutil.rmtree(d, ignore_errors=True)
